@@ -7,6 +7,7 @@ from props.framing import block_ref, vbs_ref, hlist
 
 ID = 'C07'
 CASE_TIMEOUT = 3.0
+JUDGES_HANG = True
 RULE = ('byte strings as messages and as files: well-formed messages (packaged and generated configurations, ASCII/EBCDIC codecs, '
         'binary/hex bitmap) with every structural byte (MTI, bitmap, length prefixes, PDS sub-lengths, TLV tag/length bytes, typed '
         'values) substituted from an alphabet of digits, signs, space, underscore, NUL, 0x40, 0xFF, EBCDIC and superscript digits; '
